@@ -83,6 +83,11 @@ func (spec Spec) Validate() error {
 	if spec == (Spec{}) {
 		return fmt.Errorf("none of the validations are defined")
 	}
+	// the signature validator looks up the secret of the access key id of
+	// the request, signer.Verify panics without a key store
+	if spec.Signature != nil && len(spec.Signature.AccessKeys) == 0 {
+		return fmt.Errorf("signature: accessKeys is required")
+	}
 	return nil
 }
 
